@@ -1,8 +1,172 @@
 import Req.Driver.Proto
+import Req.Pool.Lockset
+import Req.Pool.Monitor
+import Req.Pool.H1PoolLane
+import Req.Pool.Pairing
 /-! Driver lanes of C09. -/
 namespace Req.Driver.L.C09
 open Req.Proto
 
-def lanes : List (String × (List String → String)) := []
+/-! ### `c09lockset <fieldId> <site>/<site>/…`
+site = `<fn hex>:<write 0|1>:<cfg 0|1>:<lock ids comma-joined or ->`.
+Answer: `guarded <common lock ids>` or `unguarded <majority lock> <offending fn hex list>`. -/
+
+def parseSite (s : String) : Option Req.Pool.Lockset.Access :=
+  match s.splitOn ":" with
+  | [fn, w, c, ls] => do
+    let f ← decodeHex fn
+    let locks ← decodeNatList ls
+    let wb ← (if w == "1" then some true else if w == "0" then some false else none)
+    let cb ← (if c == "1" then some true else if c == "0" then some false else none)
+    pure ⟨f.map (·.toNat), wb, cb, locks⟩
+  | _ => none
+
+def encFn (f : List Nat) : String := encodeHex (f.map UInt8.ofNat)
+
+def laneLockset : List String → String
+  | [_fid, sites] =>
+    match (if sites == "-" then some [] else (sites.splitOn "/").mapM parseSite) with
+    | some as =>
+      match Req.Pool.Lockset.verdict as with
+      | .guarded ls => "guarded " ++ encodeNatList ls
+      | .unguarded l fns => "unguarded " ++ toString l ++ " " ++
+          (if fns.isEmpty then "-" else ",".intercalate (fns.map encFn))
+    | none => "bad-op"
+  | _ => "bad-op"
+
+/-! ### `c09mon <MaxConnsPerHost> <effective MaxIdleConnsPerHost> <MaxIdleConns> <events>`
+events are comma-joined, each `kind.arg.arg…` (decimal):
+0 send t · 1 opened c host · 2 closed c · 3 req c t · 4 respLast c t · 5 mreq c t · 6 mresp c t ·
+7 done t echo ok partial · 8 fail t · 9 sample host idleHost idleTotal connsHost waiters.
+Answer: `ok` or `violation <clause> <event index>`. -/
+
+def parseEv (s : String) : Option Req.Pool.Monitor.Ev :=
+  match (s.splitOn ".").mapM String.toNat? with
+  | some [0, t] => some (.send t)
+  | some [1, c, h] => some (.opened c h)
+  | some [2, c] => some (.closed c)
+  | some [3, c, t] => some (.req c t)
+  | some [4, c, t] => some (.respLast c t)
+  | some [5, c, t] => some (.mreq c t)
+  | some [6, c, t] => some (.mresp c t)
+  | some [7, t, e, ok, p] => some (.done t e (ok != 0) (p != 0))
+  | some [8, t] => some (.fail t)
+  | some [9, h, ih, it, ch, w] => some (.sample h ih it ch w)
+  | _ => none
+
+def laneMon : List String → String
+  | [mc, ih, mi, evs] =>
+    match mc.toNat?, ih.toNat?, mi.toNat?,
+          (if evs == "-" then some [] else (evs.splitOn ",").mapM parseEv) with
+    | some mc, some ih, some mi, some es => Req.Pool.Monitor.verdict ⟨mc, ih, mi⟩ es
+    | _, _, _, _ => "bad-op"
+  | _ => "bad-op"
+
+/-! ### `c09pool <MaxIdleConns> <MaxIdleConnsPerHost> <MaxConnsPerHost> <DisableKeepAlives 0|1> <nKeys> <nWants> <nConns> <ops>`
+ops comma-joined: `N.w.k` getConn creates want · `QI.w` queueForIdleConn · `QD.w` queueForDial ·
+`DO.w.c` dial of w succeeds with new connection c · `DX.w` dial fails · `RV.w` getConn receives ·
+`CA.w` wantConn.cancel · `FP.w` request done, readLoop tryPutIdleConn · `FC.w` connection of w dies ·
+`SC.c` peer closes idle c · `RI.c` removeIdleConn · `IT.c` closeConnIfStillIdle · `CI` CloseIdleConnections.
+Answer: per op `<return>/<state dump>` joined with `;`. -/
+
+def parseMOp (s : String) : Option Req.Pool.H1PoolLane.MOp :=
+  match s.splitOn "." with
+  | ["N", w, k] => do pure (.newWant (← w.toNat?) (← k.toNat?))
+  | ["QI", w] => do pure (.queueIdle (← w.toNat?))
+  | ["QD", w] => do pure (.queueDial (← w.toNat?))
+  | ["DO", w, c] => do pure (.dialOk (← w.toNat?) (← c.toNat?))
+  | ["DX", w] => do pure (.dialFail (← w.toNat?))
+  | ["RV", w] => do pure (.recv (← w.toNat?))
+  | ["CA", w] => do pure (.cancel (← w.toNat?))
+  | ["FP", w] => do pure (.finishPut (← w.toNat?))
+  | ["FC", w] => do pure (.finishClose (← w.toNat?))
+  | ["SC", c] => do pure (.serverClose (← c.toNat?))
+  | ["RI", c] => do pure (.removeIdle (← c.toNat?))
+  | ["IT", c] => do pure (.idleTimeout (← c.toNat?))
+  | ["CI"] => some .closeIdle
+  | _ => none
+
+def lanePool : List String → String
+  | [mi, mh, mc, dk, nk, nw, nc, ops] =>
+    match mi.toNat?, mh.toInt?, mc.toInt?, nk.toNat?, nw.toNat?, nc.toNat?,
+          (if ops == "-" then some [] else (ops.splitOn ",").mapM parseMOp) with
+    | some mi, some mh, some mc, some nk, some nw, some nc, some os =>
+      let cfg : Req.Pool.H1Pool.Cfg := ⟨mi, mh, mc, dk == "1"⟩
+      ";".intercalate (Req.Pool.H1PoolLane.runLane cfg nk nw nc {} os)
+    | _, _, _, _, _, _, _ => "bad-op"
+  | _ => "bad-op"
+
+/-! ### `c09pair <kind>,<kind>,…` — sequential requests of one caller on one keep-alive host
+kinds: `NB` no body · `B` body read to EOF · `CH` chunked body read to EOF · `HD` HEAD ·
+`BX` body, caller closes early · `BK` body + `Connection: close` · `NBK` no body + close ·
+`BI` body, `CloseIdleConnections` called before the body is read to EOF.
+Answer per request `<conn>:<reused>:<events>` (joined with `;`): conn = sequence number of the
+connection used, events = `R` response returned to the caller, `P` PutIdleConn(nil), `p`
+PutIdleConn(error), `E` caller saw EOF, `C` caller closed early — in observation order. -/
+
+structure PairSim where
+  st : Req.Pool.Pairing.St := {}
+  conn : Nat := 1
+  fresh : Bool := true      -- the current connection has not carried a request yet
+  out : List String := []
+
+def pairReq (sim : PairSim) (r : Nat) (kind : String) : Option PairSim :=
+  -- (hasBody, keep, accept, eof)
+  let spec : Option (Bool × Bool × Bool × Bool) :=
+    match kind with
+    | "NB" => some (false, true, true, true)
+    | "HD" => some (false, true, true, true)
+    | "B" => some (true, true, true, true)
+    | "CH" => some (true, true, true, true)
+    | "BX" => some (true, true, true, false)
+    | "BK" => some (true, false, true, true)
+    | "NBK" => some (false, false, true, true)
+    | "BI" => some (true, true, false, true)
+    | _ => none
+  match spec with
+  | none => none
+  | some (hasBody, keep, accept, eof) =>
+    -- a closed (or never available) connection is replaced by a freshly dialled one
+    let (st0, conn, fresh) :=
+      if sim.st.avail then (sim.st, sim.conn, sim.fresh) else ({}, sim.conn + 1, true)
+    let s1 := Req.Pool.Pairing.step st0 (.start r)
+    let s2 := Req.Pool.Pairing.step s1 (.readHead hasBody keep true accept)
+    let s3 := if hasBody then Req.Pool.Pairing.step s2 (.bodyDone eof true accept) else s2
+    -- events of this request = what was added to the log, oldest first
+    let added := (s3.log.take (s3.log.length - st0.log.length)).reverse
+    let letters := added.filterMap fun e =>
+      match e with
+      | .head _ _ _ => some "R"
+      | .put => some "P"
+      | .putRefused => some "p"
+      | .eof _ => some "E"
+      | _ => none
+    -- the caller observes EOF only after the read loop has dealt with the connection
+    let evs :=
+      if hasBody then
+        if eof then "R" ++ String.join (letters.filter (fun l => l == "P" || l == "p")) ++ "E" else "RC"
+      else String.join letters
+    some { st := s3, conn := conn, fresh := false,
+           out := (toString conn ++ ":" ++ (if fresh then "0" else "1") ++ ":" ++ evs) :: sim.out }
+
+def lanePair : List String → String
+  | [kinds] =>
+    let ks := kinds.splitOn ","
+    let rec go (sim : PairSim) (r : Nat) : List String → Option PairSim
+      | [] => some sim
+      | k :: rest => match pairReq sim r k with
+        | none => none
+        | some sim' => go sim' (r + 1) rest
+    match go {} 0 ks with
+    | some sim => ";".intercalate sim.out.reverse
+    | none => "bad-op"
+  | _ => "bad-op"
+
+def lanes : List (String × (List String → String)) := [
+  ("c09lockset", laneLockset),
+  ("c09pair", lanePair),
+  ("c09pool", lanePool),
+  ("c09mon", laneMon)
+]
 
 end Req.Driver.L.C09
